@@ -1,5 +1,5 @@
 import FatVerif.Model.Io
-/-! `fs.rs`: `set_dirty_flag`, `FsIoAdapter` (device access that sets the dirty flag after a successful write),
+/-! `fs.rs`: `set_dirty_flag`, `FsIoAdapter` (device access that sets the dirty flag before the first modifying write),
     `DiskSlice` (bounded, mirrored sub-stream), `fat_slice`, the fixed root-directory slice. -/
 namespace FatVerif
 
@@ -19,12 +19,24 @@ def setDirtyFlag (dirty : Bool) : Prog Unit := do
     let _ ← writeU8 devStrm () (encodeStatus flagsDirty flagsIo ||| (fs.statusRaw / 4 * 4))
     Prog.modifyFs fun fs => { fs with curDirty := flagsDirty, curIoErr := flagsIo }
 
-/-- `FsIoAdapter`: the device as seen through a mounted file system -/
+/-- `FileSystem::set_dirty_flag_before_write`: mark the volume dirty unless it is marked already, and come back to
+    the storage position the caller had set up -/
+def markDirtyBeforeWrite : Prog Unit := do
+  let fs ← Prog.getFs
+  if fs.curDirty then pure ()
+  else do
+    let pos ← Prog.seek (.cur 0)
+    setDirtyFlag true
+    let _ ← Prog.seekStart pos
+    pure ()
+
+/-- `FsIoAdapter`: the device as seen through a mounted file system; the dirty flag is put on the disk BEFORE the
+    first modifying write -/
 def adapterStrm : Strm Unit where
   read := fun _ n => do let bs ← Prog.read n; pure (bs, ())
   write := fun _ bs => do
+    if bs.length > 0 then markDirtyBeforeWrite else pure ()
     let n ← Prog.write bs
-    if n > 0 then setDirtyFlag true
     pure (n, ())
   seek := fun _ p => do let n ← Prog.seek p; pure (n, ())
   eofErr := .io devEofErr
